@@ -259,6 +259,15 @@ func (fx *FX) havoc(st *State, names []string) {
 		if n == "*" {
 			oldAlloc := fx.comp(st, "$alloc", SInt)
 			keep := map[string]Term{}
+			for _, ex := range names {
+				if strings.HasPrefix(ex, "-") {
+					for _, k := range fx.expandCompName(ex[1:]) {
+						if fx.compSorts[k] != "" {
+							keep[k] = fx.comp(st, k, fx.compSorts[k])
+						}
+					}
+				}
+			}
 			for k := range fx.knownComps {
 				if strings.HasPrefix(k, "G:") { // ghost variables are only changed when named
 					keep[k] = fx.comp(st, k, fx.compSorts[k])
@@ -275,7 +284,7 @@ func (fx *FX) havoc(st *State, names []string) {
 		}
 	}
 	for _, n := range names {
-		if n == "*" {
+		if n == "*" || strings.HasPrefix(n, "-") {
 			continue
 		}
 		for _, k := range fx.expandCompName(n) {
